@@ -136,7 +136,10 @@ func (c *Chunker) Next() (*proto.LoadChunkRequest, error) {
 		StreamId:    c.streamID,
 		SequenceNum: c.sequenceNum,
 		IsLast:      totalRead < c.chunkSize,
-		Data:        buf.Bytes(),
+		// The buffer goes back to the pool when this function returns, so the
+		// chunk must own a copy of its data. Otherwise a later call to Next, on
+		// this or any other Chunker, overwrites a chunk the caller still holds.
+		Data: bytes.Clone(buf.Bytes()),
 	}, nil
 }
 
